@@ -49,9 +49,14 @@ def step (R : Rings) : Op → Rings
   | .newElem e k => pushBack R (.head k) (.elem e)
   | .delElem e => eraseNode R (.elem e)
   | .unlink e => [Node.elem e] :: eraseNode R (.elem e)
-  | .moveCtor e' e => [Node.elem e] :: replaceNode R (.elem e) (.elem e')
+  | .moveCtor e' e =>
+    -- an unlinked source yields an unlinked element
+    if alone R (.elem e) then [Node.elem e'] :: R
+    else [Node.elem e] :: replaceNode R (.elem e) (.elem e')
   | .moveAssign a b =>
-    if b = a then R else [Node.elem b] :: replaceNode (eraseNode R (.elem a)) (.elem b) (.elem a)
+    if b = a then R
+    else if alone (eraseNode R (.elem a)) (.elem b) then [Node.elem a] :: eraseNode R (.elem a)
+    else [Node.elem b] :: replaceNode (eraseNode R (.elem a)) (.elem b) (.elem a)
   | .listMoveCtor k' k =>
     if alone R (.head k) then [Node.head k'] :: R
     else [Node.head k] :: replaceNode R (.head k) (.head k')
@@ -65,20 +70,15 @@ def run (R : Rings) : List Op → Rings
   | [] => R
   | op :: ops => run (step R op) ops
 
-/-- Side conditions under which the theorems speak about an operation: object lifetimes (a
-constructor on a fresh id, anything else on a live object) and — the one real restriction —
-**the source of an element move must be linked to something**: `base(base&&)` and
-`base::operator=(base&&)` do not test for an unlinked source (the list's own move operations do,
-via `empty()`); see `Props/C11.lean`, `moveCtor_from_unlinked_breaks_ring`. -/
+/-- Side conditions under which the theorems speak about an operation: object lifetimes only (a
+constructor on a fresh id, anything else on a live object). -/
 def valid (R : Rings) : Op → Bool
   | .newList k => decide (Node.head k ∉ nodes R)
   | .newElem e k => decide (Node.elem e ∉ nodes R) && decide (Node.head k ∈ nodes R)
   | .delElem e => decide (Node.elem e ∈ nodes R)
   | .unlink e => decide (Node.elem e ∈ nodes R)
-  | .moveCtor e' e => decide (Node.elem e' ∉ nodes R) && decide (Node.elem e ∈ nodes R) && !alone R (.elem e)
-  | .moveAssign a b =>
-    decide (Node.elem a ∈ nodes R) && decide (Node.elem b ∈ nodes R) &&
-      (decide (b = a) || !alone (eraseNode R (.elem a)) (.elem b))
+  | .moveCtor e' e => decide (Node.elem e' ∉ nodes R) && decide (Node.elem e ∈ nodes R)
+  | .moveAssign a b => decide (Node.elem a ∈ nodes R) && decide (Node.elem b ∈ nodes R)
   | .listMoveCtor k' k => decide (Node.head k' ∉ nodes R) && decide (Node.head k ∈ nodes R)
   | .listMoveAssign k k2 => decide (Node.head k ∈ nodes R) && decide (Node.head k2 ∈ nodes R)
   | .delList k => decide (Node.head k ∈ nodes R)
